@@ -31,6 +31,12 @@ def ff(a: int) -> float: ...
 def emit(a: int) -> None: ...
 
 
+@guppy.struct
+class Pair:
+    a: int
+    b: int
+
+
 @guppy
 def mk3(a: int) -> array[int, 3]:
     return array(f(a), a + 1, a + 2)
@@ -181,10 +187,15 @@ class ArrGen(Gen):
     """programs over an int array `xs` of length 3 next to the int variables: element reads, stores and augmented stores with
     computed (possibly effectful) indices `(e) % 3`, which Python and Guppy both keep inside [0, 3)"""
 
-    def _idx(self, vars_, d):
+    def _idx(self, vars_, d, plain_store=False):
         r = self.r.random()
         if r < 0.3:
             return str(self.r.choice([0, 1, 2]))
+        if plain_store:
+            # the index of a plain subscript store is not handed to the expression builder by /repo (conditional expressions,
+            # `and`/`or` and `:=` there end in an internal error: C02's subject), so it stays free of them
+            a = self.int_atom(vars_)
+            return self.r.choice([f"({a}) % 3", f"({self.r.choice('fgh')}({a})) % 3", f"({a} + {self.int_atom(vars_)}) % 3"])
         return f"({self.int_expr(vars_, d)}) % 3"
 
     def int_expr(self, vars_, d):
@@ -196,7 +207,7 @@ class ArrGen(Gen):
         r = self.r.random()
         p = " " * ind
         if r < 0.14:
-            return [p + f"xs[{self._idx(vars_, 1)}] = {self.int_expr(vars_, 2)}"], vars_, False
+            return [p + f"xs[{self._idx(vars_, 1, plain_store=True)}] = {self.int_expr(vars_, 2)}"], vars_, False
         if r < 0.26:
             return [p + f"xs[{self._idx(vars_, 1)}] {self.r.choice(['+=', '-=', '*='])} {self.int_expr(vars_, 1)}"], vars_, False
         if r < 0.30:
@@ -230,6 +241,39 @@ def gen_program(kind: str, idx: int, seed: int) -> str:
 
 
 C03_FIXED = [
+    """
+def s0(x: int, y: int) -> int:
+    p = Pair(x, y)
+    if x > y:
+        r = p.b - p.a
+    else:
+        r = p.a - p.b
+    i = 0
+    acc = 0
+    while i < 3:
+        if i % 2 == 0:
+            acc += p.b * 10 + p.a
+        else:
+            acc += p.a * 10 + p.b
+        p = Pair(p.a + 1, p.b)
+        i += 1
+    return r * 1000 + acc
+""",
+    """
+def s1(x: int, y: int) -> int:
+    p = Pair(x, 2)
+    q = Pair(y, x + 1)
+    t = (p.a, q.b)
+    if x < 0:
+        q = Pair(p.b, q.b)
+        p = Pair(p.a, t[1])
+    elif y < 0:
+        p, q = Pair(q.b, p.b), Pair(q.a, p.a)
+    while p.a > 0 and q.b > p.a:
+        p = Pair(p.a - 1, p.b)
+        q = Pair(q.a, q.b - 2)
+    return p.a + p.b * 10 + q.a * 100 + q.b * 1000 + t[0]
+""",
     """
 def q11(x: int, y: int) -> int:
     s = 0
